@@ -150,6 +150,8 @@ var ops = []*op{
 		}
 		return a.SetIndices(idx)
 	}),
+	// vertices without any primitive (a legitimate accumulator / a mesh all of whose faces were removed)
+	u("SetIndices(none)", "Mesh.SetIndices", true, func(a M) M { return a.SetIndices(nil) }),
 	u("SetMaterial", "Mesh.SetMaterial", false, func(a M) M { return a.SetMaterial(mat("mat C")) }),
 	u("SetMaterials", "Mesh.SetMaterials", true, func(a M) M {
 		n := a.PrimitiveCount()
@@ -249,6 +251,16 @@ func extending() []*op {
 	return out
 }
 
+func observers() []*op {
+	var out []*op
+	for _, o := range ops {
+		if o.observer {
+			out = append(out, o)
+		}
+	}
+	return out
+}
+
 // ---- initial pools (several deliberately non-initial: values that already own spare capacity,
 // values that share package-level storage) ----
 
@@ -278,7 +290,7 @@ func cloud(n int, k float64) M {
 	return modeling.NewPointCloud(nil, map[string][]vector3.Float64{P: freshV3(n, k), N: freshV3(n, k+0.5)}, nil, map[string][]float64{"Mass": freshV1(n, k)}, nil)
 }
 
-var poolNames = []string{"tri", "tri+grown", "clouds", "cubes"}
+var poolNames = []string{"tri+grown", "cubes", "clouds", "tri"}
 
 var pools = map[string]func() []M{
 	"tri": func() []M { return []M{triA(), triB()} },
